@@ -13,10 +13,12 @@ side is explicit:
 * `os.chdir(p)`, `open(p)` resolve the STRING `p` component by component
   (`walk`); `os.path.abspath`, `os.path.dirname`, `os.path.join` are the lexical
   string functions of `Jap.Core.PathMode`;
-* `change_to_path_dir` is transcribed statement by statement: it sets
-  `current_path_dir` BEFORE the `try`, normalises the directory LEXICALLY
-  (`os.path.abspath`) and only then hands it to the kernel (`os.chdir`), which
-  may land elsewhere than the kernel would for the un-normalised string, or fail.
+* `change_to_path_dir` is transcribed statement by statement (`Bracket`): since
+  commit 6e92c59 it hands the UN-normalised directory string to the kernel
+  (`os.chdir`) inside the `try` (`newBracket`); before, it set `current_path_dir`
+  before the `try` and normalised LEXICALLY (`os.path.abspath`) first, landing
+  elsewhere than the kernel would for `link/..`, or failing (`oldBracket`, kept
+  as the regression record of repaired finding F30).
 
 Imports nothing beyond core Lean and `Jap.Core.PathMode`.
 -/
@@ -74,20 +76,37 @@ the kernel goes for `dirname(absolute)` (for a file that is a symbolic link: the
 directory of the link) -/
 def trueDir (fs : FS D) (d : D) (ref : P) : Option D := resolveAbs fs (dirname (absIn fs d ref))
 
-/-- `change_to_path_dir.__enter__` for directory string `dir`:
-`token = current_path_dir.set(dir)`; `os.chdir(os.path.abspath(dir))`.
-`none`: `os.chdir` raises (`FileNotFoundError`) — after the `set`, before the `try`. -/
+/-- how a version of `change_to_path_dir` enters a directory string and what state an `os.chdir` failure leaves behind -/
+structure Bracket (D : Type) where
+  enter : FS D → P → Option (StF D)
+  onFail : StF D → P → StF D
+
+/-- `change_to_path_dir.__enter__` (since commit 6e92c59) for directory string `dir`:
+`token = current_path_dir.set(dir)`; inside the `try`: `os.chdir(dir)` — the UN-normalised string, resolved by the
+kernel like the file itself; `os.path.abspath` only shapes the yielded value.  `none`: `os.chdir` raises. -/
 def enterF (fs : FS D) (dir : P) : Option (StF D) :=
+  match resolveAbs fs dir with
+  | some d => some ⟨d, some dir⟩
+  | none => none
+
+/-- … and then the `finally` runs: `current_path_dir.reset(token)`, `os.chdir(prev_cwd)` to where the process still is: the state before -/
+def newBracket : Bracket D := ⟨enterF, fun s _ => s⟩
+
+/-- the bracket BEFORE commit 6e92c59 (regression record of repaired finding F30):
+`token = current_path_dir.set(dir)`; `os.chdir(os.path.abspath(dir))`, both before the `try` -/
+def oldEnterF (fs : FS D) (dir : P) : Option (StF D) :=
   match resolveAbs fs (normAbs dir) with
   | some d => some ⟨d, some dir⟩
   | none => none
 
-/-- state in which the `OSError` of a failed `os.chdir` leaves the bracket: the
+/-- state in which the `OSError` of a failed `os.chdir` left the old bracket: the
 working directory has not moved, the context variable has been set and is not reset -/
 def leaked (s : StF D) (dir : P) : StF D := ⟨s.cwd, some dir⟩
 
+def oldBracket : Bracket D := ⟨oldEnterF, leaked⟩
+
 mutual
-def runItemF [DecidableEq D] (fs : FS D) : Item → StF D → ResF D
+def runItemG [DecidableEq D] (b : Bracket D) (fs : FS D) : Item → StF D → ResF D
   | .path rel, s => ⟨true, [resolve rel (fs.phys s.cwd)], s⟩
   | .fail, s => ⟨false, [], s⟩
   | .sub ref items, s =>
@@ -95,20 +114,20 @@ def runItemF [DecidableEq D] (fs : FS D) : Item → StF D → ResF D
     match resolveAbs fs dir with
     | none => ⟨false, [], s⟩                                   -- `Path(ref, "fr")` raises: there is no such file
     | some _ =>
-      match enterF fs dir with
-      | none => ⟨false, [resolve ref (fs.phys s.cwd)], leaked s dir⟩
+      match b.enter fs dir with
+      | none => ⟨false, [], b.onFail s dir⟩
       | some s' =>
-        let r := runItemsF fs items s'
+        let r := runItemsG b fs items s'
         ⟨r.ok, resolve ref (fs.phys s.cwd) :: r.trace, s⟩       -- `finally`: reset(token), chdir back
   | .subObj ref rem isDir items, s =>
     let dir := objDir ref rem isDir
     match resolveAbs fs dir with
     | none => ⟨false, [], s⟩
     | some _ =>
-      match enterF fs dir with
-      | none => ⟨false, [resolve ref rem], leaked s dir⟩
+      match b.enter fs dir with
+      | none => ⟨false, [], b.onFail s dir⟩
       | some s' =>
-        let r := runItemsF fs items s'
+        let r := runItemsG b fs items s'
         ⟨r.ok, resolve ref rem :: r.trace, s⟩
   | .listFile ref rels, s =>
     -- `_check_type`: bracket of the list file; inside, the ORIGINAL SPELLING is resolved a second time
@@ -117,24 +136,28 @@ def runItemF [DecidableEq D] (fs : FS D) : Item → StF D → ResF D
     match resolveAbs fs dir1 with
     | none => ⟨false, [], s⟩
     | some d1 =>
-      match enterF fs dir1 with
-      | none => ⟨false, [], leaked s dir1⟩
+      match b.enter fs dir1 with
+      | none => ⟨false, [], b.onFail s dir1⟩
       | some s1 =>
         let dir2 := dirname (absIn fs s1.cwd ref)
         if resolveAbs fs dir2 = some d1 then
-          match enterF fs dir2 with
-          | none => ⟨false, [], s⟩                              -- the outer bracket's `finally` repairs the inner leak
+          match b.enter fs dir2 with
+          | none => ⟨false, [], s⟩                              -- the outer bracket's `finally` restores whatever the inner one left
           | some s2 => ⟨true, rels.map (fun rel => resolve rel (fs.phys s2.cwd)), s⟩
         else ⟨false, [], s⟩                                     -- names another (assumed: no) file now
-def runItemsF [DecidableEq D] (fs : FS D) : List Item → StF D → ResF D
+def runItemsG [DecidableEq D] (b : Bracket D) (fs : FS D) : List Item → StF D → ResF D
   | [], s => ⟨true, [], s⟩
   | i :: rest, s =>
-    let r := runItemF fs i s
+    let r := runItemG b fs i s
     if r.ok then
-      let r' := runItemsF fs rest r.st
+      let r' := runItemsG b fs rest r.st
       ⟨r'.ok, r.trace ++ r'.trace, r'.st⟩
     else r
 end
+
+/-- the loader as it is now -/
+abbrev runItemF [DecidableEq D] (fs : FS D) : Item → StF D → ResF D := runItemG newBracket fs
+abbrev runItemsF [DecidableEq D] (fs : FS D) : List Item → StF D → ResF D := runItemsG newBracket fs
 
 /-! the static reading of the property over the file system: every path value
 belongs to the directory in which the kernel finds the file that spells it -/
@@ -163,31 +186,7 @@ end
 def lexOK [DecidableEq D] (fs : FS D) (dir : P) : Bool :=
   decide (resolveAbs fs (normAbs dir) = resolveAbs fs dir)
 
-/-! every file the program enters exists, its directory survives `abspath`, and
-every list file is the same file when its spelling is resolved a second time -/
-mutual
-def goodItemF [DecidableEq D] (fs : FS D) : D → Item → Bool
-  | _, .path _ => true
-  | _, .fail => true
-  | d, .listFile ref _ =>
-    match trueDir fs d ref with
-    | some d1 => lexOK fs (dirname (absIn fs d ref)) &&
-                 decide (trueDir fs d1 ref = some d1) && lexOK fs (dirname (absIn fs d1 ref))
-    | none => false
-  | d, .sub ref items =>
-    match trueDir fs d ref with
-    | some d1 => lexOK fs (dirname (absIn fs d ref)) && goodItemsF fs d1 items
-    | none => false
-  | _, .subObj ref rem isDir items =>
-    match resolveAbs fs (objDir ref rem isDir) with
-    | some d1 => lexOK fs (objDir ref rem isDir) && goodItemsF fs d1 items
-    | none => false
-def goodItemsF [DecidableEq D] (fs : FS D) : D → List Item → Bool
-  | _, [] => true
-  | d, i :: rest => goodItemF fs d i && goodItemsF fs d rest
-end
-
-/-! the same without the `abspath` clauses: every file the program enters exists and every list
+/-! every file the program enters exists (the kernel reaches the directory it is spelled in) and every list
 file is the same file when its spelling is resolved a second time -/
 mutual
 def existItemF [DecidableEq D] (fs : FS D) : D → Item → Bool
